@@ -120,6 +120,8 @@ class C17(Check):
         # the first update() of a dense-time online monitor leaves a variable out (allowed in every later update, and the same as passing an empty list)
         for txt in ['(xa >= 0) and (xb >= 0)', 'once[0,1](xa >= 1) or (xb <= 2)', '(xa >= 1) since (xb >= 1)', 'xa + xb >= 1']:
             cases.append({'f': P, 'n': 3, 'nv': 2, 'cols': [[1, 0, 2], [0, 1, 3]], 'times': [0, 1, 2], 'shape': 'first-update-omits', 'kind': 'dense-online', 'perm': 0.5, 'text': txt})
+            # ... the same after the object has been used and reset (seeded change C17_A5: what the first update() does once only)
+            cases.append({'f': P, 'n': 3, 'nv': 2, 'cols': [[1, 0, 2], [0, 1, 3]], 'times': [0, 1, 2], 'shape': 'update-after-reset-omits', 'kind': 'dense-online', 'perm': 0.5, 'text': txt})
         # a sampling period that is zero or negative
         # ... or not a finite number (inf, a bool), or a tolerance that is not a number
         for per in ([0, 's', 0.1], [-1, 's', 0.1], [0.0, 'ms', 0.1], [float('inf'), 's', 0.1], [True, 's', 0.1], [1, 's', float('nan')], [float('nan'), 's', 0.1]):
@@ -172,9 +174,10 @@ class C17(Check):
             base['pastify'] = True
         if c.get('period'):
             base['period'] = c['period']
-        if shape == 'first-update-omits':
+        if shape in ('first-update-omits', 'update-after-reset-omits'):
+            warm = [['update', [['xa', [[0.0, 2.0], [1.0, 0.0]]], ['xb', [[0.0, 1.0], [1.0, 1.0]]]]], ['reset']] if shape == 'update-after-reset-omits' else []
             mk = lambda omit, empty: {'monitor': 'dense-online', 'vars': ['xa', 'xb'], 'spec': 'out = ' + c['text'],
-                                      'calls': [['update', [['xa', [[0.0, 1.0]]]] + ([['xb', []]] if empty else [])] if omit else ['update', [['xa', [[0.0, 1.0]]], ['xb', [[0.0, 0.0]]]]],
+                                      'calls': warm + [['update', [['xa', [[0.0, 1.0]]]] + ([['xb', []]] if empty else [])] if omit else ['update', [['xa', [[0.0, 1.0]]], ['xb', [[0.0, 0.0]]]]],
                                                 ['update', [['xa', [[1.0, 0.0]]], ['xb', [[0.0, 0.0], [1.0, 1.0]] if omit else [[1.0, 1.0]]]]], ['update', [['xa', [[2.0, 2.0]]], ['xb', [[2.0, 3.0]]]]]]}
             return [mk(True, False), mk(True, True)]
         if shape in ('huge-bound', 'big-values'):
@@ -232,7 +235,7 @@ class C17(Check):
             got = [r.get('value') for r in i['calls']]
             if ires[1]['setup']['status'] == 'ok' and all(r['status'] == 'ok' for r in ires[1]['calls']) and want != got:
                 return 'violation', dict(det, expected={'the same formula over float variables': want}, observed={'over fields of objects': got})
-        if c['shape'] == 'first-update-omits':
+        if c['shape'] in ('first-update-omits', 'update-after-reset-omits'):
             oc = lambda r: [r['status'], r.get('value') if r['status'] == 'ok' else r.get('kind')]
             a, b = [oc(r) for r in ires[0]['calls']], [oc(r) for r in ires[1]['calls']]
             if a != b or first_bad is not None:
